@@ -37,6 +37,8 @@ for _k, _p in PROFILES.items():
         _p.setdefault(_f, False)
     _p["key"] = _k
 
+ENABLED = ("P", "R", "B")
+
 QP, RP, QG, RG, RE, ITEMS, RD, RI = ("reserve_put_queue", "reservations_put", "reserve_get_queue",
                                       "reservations_get", "reserved_events", "items", "ready_items",
                                       "reserved_items")
@@ -89,6 +91,16 @@ class StoreLib(LibBase):
 
     def profile(self, cls):
         return PROFILES[cls]
+
+    def enabled_classes(self):
+        return ENABLED
+
+    def unit_props(self, cls, fn):
+        con = self.contracts[cls][fn]
+        props = set(con.props) | {"C20"}
+        if con.keeps_inv or con.uses_inv:
+            props |= {"C01", "C02", "C04", "C05", "C06", "C07", "C18"}
+        return props
 
     # ------------------------------------------------------------------ state
     def schema(self, cls):
@@ -167,9 +179,9 @@ class StoreLib(LibBase):
             out.append(("I-bind.len", Ri.len == Re.len, ("C02",)))
             itobj = (lambda x: x.items[0]) if p["tuple"] else (lambda x: x)
             if assume:
-                grd = z3.Function("inv_%s!%d" % (RD, _ctr()), z3.IntSort(), z3.IntSort())
-                git = z3.Function("inv_%s!%d" % (ITEMS, _ctr()), z3.IntSort(), z3.IntSort())
-                itag = z3.Function("itag!%d" % _ctr(), z3.IntSort(), z3.IntSort())
+                grd = z3.Function("inv_%s!%s" % (RD, _ctr()), z3.IntSort(), z3.IntSort())
+                git = z3.Function("inv_%s!%s" % (ITEMS, _ctr()), z3.IntSort(), z3.IntSort())
+                itag = z3.Function("itag!%s" % _ctr(), z3.IntSort(), z3.IntSort())
                 st.ghost["inv_rd"] = grd
                 st.ghost["inv_it"] = git
                 out.append(("I-items.nodup.Rd", V.forall_idx(Rd, lambda i, x: z3.And(grd(x.t) == i, itag(x.t) == 1),
@@ -207,9 +219,9 @@ class StoreLib(LibBase):
         # I-nodup
         if assume:
             invs = {}
-            tagf = z3.Function("tag!%d" % _ctr(), z3.IntSort(), z3.IntSort())
+            tagf = z3.Function("tag!%s" % _ctr(), z3.IntSort(), z3.IntSort())
             for nm in EVENT_LISTS:
-                g = z3.Function("inv_%s!%d" % (nm, _ctr()), z3.IntSort(), z3.IntSort())
+                g = z3.Function("inv_%s!%s" % (nm, _ctr()), z3.IntSort(), z3.IntSort())
                 invs[nm] = g
                 out.append(("I-nodup." + nm, V.forall_idx(f[nm], (lambda g: lambda i, e: g(e.t) == i)(g),
                                                           "I-nodup." + nm), ("C02", "C07")))
@@ -264,7 +276,7 @@ class StoreLib(LibBase):
     def ghost_owner_pos(self, st, x):
         """position in reserved_items of the reservation owning item x (Skolem function of the LIFO clause)"""
         if "owner_pos" not in st.ghost:
-            st.ghost["owner_pos"] = z3.Function("owner_pos!%d" % _ctr(), z3.IntSort(), z3.IntSort())
+            st.ghost["owner_pos"] = z3.Function("owner_pos!%s" % _ctr(), z3.IntSort(), z3.IntSort())
         return st.ghost["owner_pos"](x)
 
     def expected_timeout(self, cls, con, ordinal, args, st):
@@ -618,7 +630,9 @@ class StoreLib(LibBase):
                     Clause("result-truthy", lambda c: V.truth(c.res), ("C01",)),
                 ] + avg_items(c, held(o, p) + 1) + lib.put_extra(cls, c) + ([Structural(
                     "spawns-exactly-one-mover-for-the-item",
-                    lambda c: _spawn_ok(c, "move_to_ready_items", "item", c.args["item"]), ("C11", "C01"))]
+                    lambda c: _spawn_ok(c, "move_to_ready_items", "item", c.args["item"]), ("C11", "C01"),
+                    caller_effect=lambda c: c.new.ghost.setdefault("spawned", []).append(
+                        ("move_to_ready_items", {"item": c.args["item"]})))]
                     if p["mover"] else [])
 
             def put_pre_r(st, args):
@@ -1074,7 +1088,7 @@ class MoverYields:
                        ynode.lineno, exp[2])
         # resume: havoc under the rely
         s = st.fork()
-        tag = "y%d_%d" % (ordinal, _ctr())
+        tag = "y%d_%s" % (ordinal, _ctr())
         for nm, kind in lib.schema(cls).items():
             if nm in lib.rely_stable(cls):
                 continue
@@ -1114,7 +1128,7 @@ class TriggerLoop:
 
     def havoc(self, ex, st, node, ordinal):
         p = PROFILES[self.cls]
-        tag = "lh%d" % _ctr()
+        tag = "lh%s" % _ctr()
         mods = [self.Q, self.R]
         if self.side == "get":
             mods.append(RE)
@@ -1180,8 +1194,7 @@ _c = [0]
 
 
 def _ctr():
-    _c[0] += 1
-    return _c[0]
+    return logic.fresh("n").decl().name().split("!")[1]
 
 
 def _real(n):
